@@ -133,6 +133,54 @@ if "slices" in req:
     out["slices"] = res
 
 
+# ---------------------------------------------------------------- wrappers of the resampler classes, called directly
+if "limit" in req:
+    import dask
+    import dask.array as da
+    dask.config.set(scheduler="synchronous")
+    from pyresample.bilinear import XArrayBilinearResampler
+    res_ = []
+    for c in req["limit"]:
+        data = np.array([fh(v) for v in c["data"]], dtype=np.float64)
+        resv = np.array([fh(v) for v in c["res"]], dtype=np.float64)
+        o = XArrayBilinearResampler._limit_output_values_to_input(None, da.from_array(data, chunks=c.get("chunks", 3)),
+                                                                  da.from_array(resv, chunks=2), fh(c["fill"]))
+        res_.append(hx(np.asarray(o)))
+    out["limit"] = res_
+
+if "scatter" in req:
+    import dask
+    import dask.array as da
+    dask.config.set(scheduler="synchronous")
+    from pyresample.bilinear import NumpyBilinearResampler, XArrayBilinearResampler
+    res_ = []
+    for c in req["scatter"]:
+        r = {}
+        h, w = c["shape"]
+        valid = np.array(c["valid"], dtype=bool)
+        bands = np.array([[fh(v) for v in b] for b in c["bands"]], dtype=np.float64).reshape(len(c["bands"]), -1)
+        geo = types.SimpleNamespace(shape=(h, w), size=h * w)
+        for cls, name in ((NumpyBilinearResampler, "np"), (XArrayBilinearResampler, "xr")):
+            try:
+                obj = cls.__new__(cls)
+                obj._target_geo_def = geo
+                obj._valid_output_indices = valid
+                if c["ndim"] == 3:
+                    arr = bands.copy() if name == "np" else da.from_array(bands.copy(), chunks=(1, 3))
+                    o = np.asarray(obj._reshape_to_target_area(arr, 3))
+                    if name == "np":
+                        o = np.moveaxis(o.reshape(h, w, -1), -1, 0)        # numpy puts the bands last
+                    r[name] = [hx(b) for b in o.reshape(len(c["bands"]), -1)]
+                else:
+                    arr = bands[0].copy() if name == "np" else da.from_array(bands[0].copy(), chunks=3)
+                    o = np.asarray(obj._reshape_to_target_area(arr, 2))
+                    r[name] = [hx(o.reshape(-1))]
+            except Exception as e:
+                r[name] = err(e)
+        res_.append(r)
+    out["scatter"] = res_
+
+
 # ---------------------------------------------------------------- full resamplers
 def build_geo(spec, cover=None):
     from pyresample.geometry import AreaDefinition, SwathDefinition
@@ -265,6 +313,31 @@ if "resample" in req:
                         r["nb_i"] = np.asarray(r2._index_array).astype(int).ravel().tolist()
                         r["valid_out"] = np.flatnonzero(r2._valid_output_indices).astype(int).tolist()
                         r["valid_data_random"] = jl(fl["random"].ravel()[np.asarray(r2._valid_input_index)])
+                if "np" in r:
+                    # histories on one resampler object: a repeated call gives the same result, the inputs are not modified
+                    keep = fl["const"].copy()
+                    again = rn.get_sample_from_bil_info(fl["const"], fill_value=np.nan)
+                    r["history"] = {"repeat_same": bool(np.array_equal(jl(again), r["np"]["const"], equal_nan=True)),
+                                    "data_unchanged": bool(np.array_equal(keep, fl["const"])),
+                                    "tables_unchanged": bool(np.array_equal(np.asarray(rn.bilinear_t), np.array(r["t"]), equal_nan=True)
+                                                             and np.array_equal(np.asarray(rn.slices_x), np.array(r["slices_x"])))}
+                    # legacy (deprecated) entry points of _numpy_resampler.py
+                    if len(r["valid_out"]) == ox.size:
+                        from pyresample.bilinear._numpy_resampler import get_bil_info, get_sample_from_bil_info, resample_bilinear
+                        try:
+                            lg = {}
+                            lg["resample_bilinear"] = jl(resample_bilinear(fl["random"].copy(), src, tgt, radius=c["radius"],
+                                                                           neighbours=c["neighbours"], fill_value=np.nan,
+                                                                           reduce_data=bool(c.get("reduce_data", False))))
+                            t_, s_, iidx, idxarr = get_bil_info(src, tgt, radius=c["radius"], neighbours=c["neighbours"],
+                                                                reduce_data=bool(c.get("reduce_data", False)))
+                            lg["t"], lg["s"] = jl(t_), jl(s_)
+                            for name in ("const", "affine", "random"):
+                                lg[name] = jl(get_sample_from_bil_info(fl[name].ravel().copy(), t_, s_, iidx, idxarr,
+                                                                       output_shape=tgt.shape))
+                            r["legacy"] = lg
+                        except Exception as e:
+                            r["legacy"] = err(e)
                 # one-call API as well
                 if "np" in r:
                     r["np"]["resample_api"] = jl(NumpyBilinearResampler(src, tgt, c["radius"], **kw).resample(
@@ -287,6 +360,9 @@ if "resample" in req:
                     rx = XArrayBilinearResampler(src, tgt, c["radius"], **kw)
                     arr = xr.DataArray(da.from_array(stack.copy(), chunks=ch3), dims=("bands", "y", "x"))
                     r["xr"][key]["stack"] = jl(rx.resample(arr, fill_value=np.nan).values)
+                    # the SAME resampler object used again, for 2-D data after 3-D data (stored coordinates, look-up tables)
+                    arr = xr.DataArray(da.from_array(fl["affine"].copy(), chunks=ch2), dims=("y", "x"))
+                    r["xr"][key]["reuse:affine"] = jl(rx.get_sample_from_bil_info(arr, fill_value=np.nan).values)
                     if c.get("int_dtypes"):
                         jj, ii = np.mgrid[0:lons.shape[0], 0:lons.shape[1]]
                         for dt in c["int_dtypes"]:
